@@ -9,6 +9,7 @@ import (
 	"io/fs"
 	"io/ioutil"
 	"os"
+	"path/filepath"
 	"reflect"
 	"runtime"
 	"strings"
@@ -254,13 +255,36 @@ func unmarshalJsonFile(path string, i interface{}) (err error) {
 	return
 }
 
-func writeReader(path string, r io.Reader, perms fs.FileMode, compress bool) (err error) {
-	var out *os.File
-	var w io.WriteCloser
+// tmpPath returns the path of the temporary file used to write path. Its
+// name cannot be mistaken for an object file (it does not start with a uuid)
+func tmpPath(path string) string {
+	return filepath.Join(filepath.Dir(path), fmt.Sprintf(".tmp-%s", filepath.Base(path)))
+}
 
+// writeReader writes the content of r into file at path. The content is first
+// written into a temporary file which then replaces path, so that path either
+// holds its previous content or the new one, even if the process is interrupted
+func writeReader(path string, r io.Reader, perms fs.FileMode, compress bool) (err error) {
 	if compress && !strings.HasSuffix(path, compressedExtension) {
 		path = fmt.Sprintf("%s%s", path, compressedExtension)
 	}
+
+	tmp := tmpPath(path)
+	if err = writeFile(tmp, r, perms, compress); err != nil {
+		os.Remove(tmp)
+		return
+	}
+
+	if err = os.Rename(tmp, path); err != nil {
+		os.Remove(tmp)
+	}
+
+	return
+}
+
+func writeFile(path string, r io.Reader, perms fs.FileMode, compress bool) (err error) {
+	var out *os.File
+	var w io.WriteCloser
 
 	if out, err = os.OpenFile(path, os.O_CREATE|os.O_TRUNC|os.O_RDWR, perms); err != nil {
 		return
@@ -281,5 +305,4 @@ func writeReader(path string, r io.Reader, perms fs.FileMode, compress bool) (er
 	}
 
 	return w.Close()
-
 }
